@@ -93,7 +93,7 @@ static unsigned ncalls;         /* calls since the counter was last zeroed */
 
 /* bad-hash fault */
 static unsigned bad_at;         /* 1-based call ordinal within the op; 0 = off */
-static int bad_kind;            /* 0: m, 1: m+1, 2: SIZE_MAX */
+static int bad_kind;            /* 0: m, 1: m+1, 2: SIZE_MAX, 3..6: out of range but congruent to a valid index modulo 2^60 / 2^32, or with a top bit set */
 static int bad_returned;
 static int m0_seen;
 
@@ -129,7 +129,15 @@ static size_t hcommon(int fn, size_t k, size_t m)
     ncalls++;
     if (bad_at && ncalls == bad_at && !bad_returned) {
         bad_returned = 1;
-        r = bad_kind == 0 ? m : bad_kind == 1 ? m + 1 : SIZE_MAX;
+        switch (bad_kind) {
+        case 0: r = m; break;
+        case 1: r = m + 1; break;
+        case 2: r = SIZE_MAX; break;
+        case 3: r = r + ((size_t)1 << 60); break;      /* a check done on a scaled (x16) offset would wrap */
+        case 4: r = r | ((size_t)1 << 63); break;
+        case 5: r = r | ((size_t)1 << 62); break;
+        default: r = r + ((size_t)1 << 32); break;     /* a check done in 32 bits would wrap */
+        }
         snapshot_take(1);       /* nothing may be written between this return and the abort */
     }
     CB_LEAVE();
@@ -602,7 +610,7 @@ static void x_once(const plan_t *p)
         g_cur_prop = prop_of(t, kind); g_cur_ctx = ctx_of(t);
         was_settled = m->settled;
         ncalls = 0; bad_returned = 0; m0_seen = 0;
-        bad_at = 0; bad_kind = (int)(o->a[6] % 3);
+        bad_at = 0; bad_kind = (int)(o->a[6] % 7);
         if (p->mode == 17 && kind != O_SWAP && kind != O_CLEAR && kind != O_RANGE && m->inited && !m->builtin) bad_at = (unsigned)o->a[5];
         if (bad_at) g_cur_prop = "C17";
         if (p->mode != 16) simheap_fail_in_op((unsigned)o->a[4]);
@@ -908,9 +916,14 @@ static void x_once(const plan_t *p)
             static const uint64_t ms[] = { 1, 2, 3, (1ull << 24) - 1, 1ull << 24, (1ull << 24) + 1, 1ull << 31, (1ull << 32) - 1, (1ull << 32) + 1,
                                            UINT64_MAX, UINT64_MAX - 1, (1ull << 24) + 3, (1ull << 25) + 3 };
             prng_t r; int j;
+            static uint64_t fib[94]; static int nfib;
+            if (!nfib) { fib[0] = 1; fib[1] = 2; for (nfib = 2; nfib < 92; nfib++) fib[nfib] = fib[nfib - 1] + fib[nfib - 2]; }
             prng_seed(&r, o->a[1] ^ 0x17);
             for (j = 0; j < 64; j++) {
                 size_t kk = prng_chance(&r, 1, 2) ? ks[prng_below(&r, sizeof ks / sizeof ks[0])] : prng_next(&r) >> prng_below(&r, 64);
+                /* the multiplicative hash uses the golden ratio: Fibonacci numbers (and small multiples, +-1) are the keys whose
+                 * product with phi lies closest to an integer, i.e. whose fractional part is closest to 0 or 1 */
+                if (j % 3 == 0) kk = (size_t)(fib[prng_below(&r, (uint64_t)nfib)] * (1 + prng_below(&r, 5)) + prng_below(&r, 3) - 1);
                 size_t mm = prng_chance(&r, 1, 2) ? ms[prng_below(&r, sizeof ms / sizeof ms[0])] : (prng_next(&r) >> prng_below(&r, 64)) | 1;
                 static size_t r1, r2;
                 g_cur_prop = "C17"; g_cur_ctx = "range";
@@ -1064,13 +1077,13 @@ static void x_gen(prng_t *r, int mode, plan_t *p)
                 op_t *q = &p->ops[at];
                 if (q->kind == O_SWAP || q->kind == O_CLEAR || q->kind == O_RANGE) continue;
                 q->a[5] = 2 + prng_below(r, prng_chance(r, 1, 2) ? 2 : 11);
-                q->a[6] = prng_below(r, 3);
+                q->a[6] = prng_below(r, 7);
                 if (at > last) last = at;
             }
             if (prng_chance(r, 2, 3)) {
                 int at = (last >= 0 ? last : p->nops / 3) + (int)prng_below(r, (uint64_t)(p->nops - (last >= 0 ? last : p->nops / 3)));
                 op_t *q = &p->ops[at];
-                if (q->kind != O_SWAP && q->kind != O_CLEAR && q->kind != O_RANGE) { q->a[5] = 1; q->a[6] = prng_below(r, 3); }
+                if (q->kind != O_SWAP && q->kind != O_CLEAR && q->kind != O_RANGE) { q->a[5] = 1; q->a[6] = prng_below(r, 7); }
             }
         }
     }
